@@ -186,6 +186,9 @@ UNITS = [
     Unit("C15", "jsonargparse._link_arguments:ActionLink.set_target_value", stv_setup, stv_post, ap_raises,
          trusted=["precondition: the target is a plain (non-subclass) argument"]),
 ]
+from contracts.core_units import dump_unit  # noqa: E402
+UNITS.append(dump_unit("C15"))
+
 VERIFIED_CALLEES = ("ActionLink.set_target_value",)
 LEVEL = "other"
 TECHNIQUE = "contract-based deductive verification (VCs from the real AST with ghost events; link invariant from _initial_input_checks) + bounded run-time contract checking of parse links on generated parsers"
